@@ -282,24 +282,26 @@ static int             nep;
 static pthread_mutex_t epmtx = PTHREAD_MUTEX_INITIALIZER;
 
 static tep *
-ep_new(void)
+ep_add(char kind, uint32_t id, int sock, int tran, const char *url, int rmin, int rmax, nng_dialer d, nng_listener l)
 {
 	tep *e = NULL;
 	pthread_mutex_lock(&epmtx);
 	if (nep < MAXEP) {
 		e = &eps[nep];
-		memset(e, 0, sizeof(*e));
+		e->kind = kind;
+		e->id   = id;
+		e->sock = sock;
+		e->tran = tran;
+		snprintf(e->url, sizeof(e->url), "%s", url);
+		e->rmin = rmin;
+		e->rmax = rmax;
+		e->d    = d;
+		e->l    = l;
+		atomic_store(&e->open, 1);
+		nep++;
 	}
 	pthread_mutex_unlock(&epmtx);
 	return e;
-}
-
-static void
-ep_commit(tep *e)
-{
-	pthread_mutex_lock(&epmtx);
-	if (e == &eps[nep]) nep++;
-	pthread_mutex_unlock(&epmtx);
 }
 
 static const char *
@@ -400,24 +402,21 @@ sock_index(const tsock *ts)
 static tep *
 add_listener_url(tsock *ts, int tran, const char *url)
 {
-	tep *e = ep_new();
-	int  rv;
-	if (e == NULL) return NULL;
-	if ((rv = nng_listener_create(&e->l, ts->s, url)) != 0) return NULL;
-	if ((rv = nng_listener_start(e->l, 0)) != 0) {
-		nng_listener_close(e->l);
+	nng_listener l;
+	nng_dialer   nod = NNG_DIALER_INITIALIZER;
+	char         durl[128];
+	tep         *e;
+	if (nng_listener_create(&l, ts->s, url) != 0) return NULL;
+	if (nng_listener_start(l, 0) != 0) {
+		nng_listener_close(l);
 		return NULL;
 	}
-	e->kind = 'l';
-	e->id   = (uint32_t) nng_listener_id(e->l);
-	e->sock = sock_index(ts);
-	e->tran = tran;
-	if (vf_dial_url(e->l, tran, url, e->url, sizeof(e->url)) != 0) {
+	if (vf_dial_url(l, tran, url, durl, sizeof(durl)) != 0) {
 		// socket closed under us
-		snprintf(e->url, sizeof(e->url), "%s", url);
+		snprintf(durl, sizeof(durl), "%s", url);
 	}
-	atomic_store(&e->open, 1);
-	ep_commit(e);
+	e = ep_add('l', (uint32_t) nng_listener_id(l), sock_index(ts), tran, durl, 0, 0, nod, l);
+	if (e == NULL) nng_listener_close(l);
 	return e;
 }
 
@@ -439,33 +438,29 @@ add_listener(tsock *ts, int tran)
 static tep *
 add_dialer(tsock *ts, int tran, const char *url, int rmin, int rmax, bool via_socket_opts)
 {
-	tep *e = ep_new();
-	if (e == NULL) return NULL;
+	nng_dialer   d;
+	nng_listener nol = NNG_LISTENER_INITIALIZER;
+	tep         *e;
 	if (via_socket_opts) {
 		nng_socket_set_ms(ts->s, NNG_OPT_RECONNMINT, rmin);
 		nng_socket_set_ms(ts->s, NNG_OPT_RECONNMAXT, rmax);
 	}
-	if (nng_dialer_create(&e->d, ts->s, url) != 0) return NULL;
+	if (nng_dialer_create(&d, ts->s, url) != 0) return NULL;
 	if (!via_socket_opts) {
-		if (nng_dialer_set_ms(e->d, NNG_OPT_RECONNMINT, rmin) != 0 ||
-		    nng_dialer_set_ms(e->d, NNG_OPT_RECONNMAXT, rmax) != 0) {
-			nng_dialer_close(e->d);
+		if (nng_dialer_set_ms(d, NNG_OPT_RECONNMINT, rmin) != 0 ||
+		    nng_dialer_set_ms(d, NNG_OPT_RECONNMAXT, rmax) != 0) {
+			nng_dialer_close(d);
 			return NULL;
 		}
 	}
-	e->kind = 'd';
-	e->id   = (uint32_t) nng_dialer_id(e->d);
-	e->sock = sock_index(ts);
-	e->tran = tran;
-	e->rmin = rmin;
-	e->rmax = rmax;
-	snprintf(e->url, sizeof(e->url), "%s", url);
-	atomic_store(&e->open, 1);
-	ep_commit(e);
+	e = ep_add('d', (uint32_t) nng_dialer_id(d), sock_index(ts), tran, url, rmin, rmax, d, nol);
+	if (e == NULL) {
+		nng_dialer_close(d);
+		return NULL;
+	}
 	// background dial: failures are retried by the dialer
-	if (nng_dialer_start(e->d, NNG_FLAG_NONBLOCK) != 0) {
-		atomic_store(&e->open, 0);
-		nng_dialer_close(e->d);
+	if (nng_dialer_start(d, NNG_FLAG_NONBLOCK) != 0) {
+		if (atomic_exchange(&e->open, 0) == 1) nng_dialer_close(d);
 	}
 	return e;
 }
@@ -1175,10 +1170,6 @@ static void
 fd_rst_close(int fd, bool rst)
 {
 	struct linger lg = { 1, 0 };
-	if (!rst && getenv("C14_NOLINGER")) {
-		close(fd);
-		return;
-	}
 	if (!rst) {
 		// orderly close as the peer sees it (FIN first), but no TIME_WAIT
 		// entry on this side: those would use up the ephemeral ports
@@ -1294,27 +1285,6 @@ wait_attempt(rawl *l, uint64_t t_drop, const redial_ctx *c, const char *cause)
 		// not observable: the harness itself cannot connect either
 		vf_stat("redial_unobservable_no_ports", 1);
 		return -1;
-	}
-	if (getenv("C14_DEBUG")) {
-		nng_duration v = -7;
-		int rv = nng_dialer_get_ms(eps[0].d, NNG_OPT_RECONNMINT, &v);
-		fprintf(stderr, "DEBUG dialer %u open=%d get_ms rv=%d v=%d sockstate=%d\n", eps[0].id, atomic_load(&eps[0].open), rv, v, atomic_load(&cs[0]->state));
-		pthread_mutex_lock(&evmtx);
-		for (int i = evn > 12 ? evn - 12 : 0; i < evn; i++) fprintf(stderr, "DEBUG ev[%d] pipe %u %s closed=%d d=%u\n", i, evlog[i].pipe, evname[evlog[i].ev], evlog[i].closed, evlog[i].dialer);
-		pthread_mutex_unlock(&evmtx);
-	}
-	if (getenv("C14_PAUSE")) {
-		fprintf(stderr, "PAUSED pid %d\n", (int) getpid());
-		vf_watchdog(0);
-		vf_msleep(45000);
-	}
-	if (getenv("C14_DEBUG")) {
-		nng_stat *st;
-		char cmd[128];
-		fprintf(stderr, "DEBUG none: port=%u listening=%d fd=%d\n", l->port, l->listening, l->fd);
-		snprintf(cmd, sizeof(cmd), "ss -tanp | grep ':%u ' >&2", l->port);
-		if (system(cmd)) {}
-		if (nng_stats_get(&st) == 0) { nng_stats_dump(st); nng_stats_free(st); }
 	}
 	snprintf(key, sizeof(key), "C14/redial-none/%s/%s", c->tran, cause);
 	vf_violation(key, "%s %s reconnect min/max %d/%d ms: no connection attempt within %d ms after %s; the dialer is open and was started in the background",
@@ -1469,7 +1439,6 @@ redial_raw_case(long idx, vf_rng *r, uint64_t key, int tran)
 			break;
 		}
 		cause = actnames[act];
-		if (getenv("C14_DEBUG")) fprintf(stderr, "DEBUG action %d: %s k=%d\n", a, cause, k);
 		vf_stat("drops_injected", 1);
 		vf_class("redial/%s/%s/reconn=%d-%d", c.tran, cause, c.rmin, c.rmax);
 		fd = -1;
@@ -2057,18 +2026,6 @@ listen_case(long idx)
 	}
 }
 
-#include <execinfo.h>
-static void
-dbg_ev(int ev, const void *obj, uintptr_t a, uintptr_t b)
-{
-	(void) b;
-	if ((ev == NNI_VE_AIO_FINISH || ev == NNI_VE_AIO_REFUSED) && (int) a == NNG_ESTOPPED) {
-		void *bt[14];
-		int   n = backtrace(bt, 14);
-		fprintf(stderr, "DEBUG aio %p ev=%d ESTOPPED\n", obj, ev);
-		backtrace_symbols_fd(bt, n, 2);
-	}
-}
 
 // ================================================================== main
 int
@@ -2078,11 +2035,6 @@ main(int argc, char **argv)
 	evlog = calloc(MAXEV, sizeof(evrec));
 	if (evlog == NULL) vf_harness_fail("calloc");
 	hb_start();
-	if (getenv("C14_DEBUG")) {
-		nng_log_set_logger(nng_stderr_logger);
-		nng_log_set_level(NNG_LOG_DEBUG);
-		vf_ev_hook(dbg_ev);
-	}
 	const char *mode = vf_mode[0] ? vf_mode : "events";
 	for (long idx = 0; idx < vf_cases; idx++) {
 		if (!vf_want_case(idx)) continue;
